@@ -1,6 +1,7 @@
 package main
 
 import (
+	"fmt"
 	"go/types"
 	"regexp"
 	"sort"
@@ -204,4 +205,68 @@ func (c *Ctx) unitOf(root *ssa.Function) []unitMember {
 		frontier = next
 	}
 	return out
+}
+
+var dollarRe = regexp.MustCompile(`\$(\d+)`)
+
+// substParams rewrites a term of callee g into the caller's namespace: $k becomes the
+// term of the k-th argument of the call.
+func (c *Ctx) substParams(fn *ssa.Function, call ssa.CallInstruction, term string) string {
+	args := call.Common().Args
+	return dollarRe.ReplaceAllStringFunc(term, func(m string) string {
+		var k int
+		fmt.Sscanf(m, "$%d", &k)
+		if k < len(args) {
+			return c.term(fn, args[k])
+		}
+		return m
+	})
+}
+
+// valueFields returns the fields of the struct that value v denotes at instruction use:
+// either a composite literal allocated in fn, or the result of a (small) constructor
+// function of the repo that returns a fresh composite literal — in which case the
+// constructor's field terms are rewritten into fn's namespace. nil when v is neither.
+func (c *Ctx) valueFields(fn *ssa.Function, v ssa.Value, use ssa.Instruction) map[string]string {
+	v = unwrapIface(v)
+	switch x := v.(type) {
+	case *ssa.Alloc:
+		st, ok := deref(x.Type()).Underlying().(*types.Struct)
+		if !ok {
+			return nil
+		}
+		out := map[string]string{}
+		for i := 0; i < st.NumFields(); i++ {
+			f := fieldName(x.Type(), i)
+			out[f] = c.fieldAtUse(fn, x, f, use)
+		}
+		return out
+	case *ssa.Call:
+		g := callee(x)
+		if g == nil || !c.W.InRepo(g) || g == fn || len(g.Blocks) == 0 {
+			return nil
+		}
+		var alloc *ssa.Alloc
+		var ret *ssa.Return
+		for _, r := range returnsOf(g) {
+			if len(r.Results) != 1 {
+				return nil
+			}
+			a, ok := r.Results[0].(*ssa.Alloc)
+			if !ok || (alloc != nil && a != alloc) {
+				return nil
+			}
+			alloc, ret = a, r
+		}
+		if alloc == nil {
+			return nil
+		}
+		inner := c.valueFields(g, alloc, ret)
+		out := map[string]string{}
+		for k, t := range inner {
+			out[k] = c.substParams(fn, x, t)
+		}
+		return out
+	}
+	return nil
 }
